@@ -36,6 +36,10 @@ def normals14():
 
 def ref_kernel(base, k, x, nx, y, ny):
     """Closed form of kernel `base` for wavenumber parameter k at one pair; returns (value(s), magnitude of the largest term)."""
+    if base.endswith("single_layer_far_field"):
+        return np.array([np.exp(-1j * k * (x @ y)) / (4 * np.pi)]), abs(np.exp(-1j * k * (x @ y))) / (4 * np.pi)
+    if base.endswith("double_layer_far_field"):
+        return np.array([-1j * k * (x @ ny) * np.exp(-1j * k * (x @ y)) / (4 * np.pi)]), abs(k) * abs(np.exp(-1j * k * (x @ y))) / (4 * np.pi)
     d = x - y
     r = np.linalg.norm(d)
     if base.startswith("laplace"):
@@ -83,7 +87,9 @@ def parse_select_cl_kernel():
     """The {numba kernel type: OpenCL kernel name} table of opencl_kernels.py, read with ast (the module imports pyopencl)."""
     import ast
 
-    tree = ast.parse(open("/repo/bempp_cl/core/opencl_kernels.py").read())
+    from bex.core import REPO
+
+    tree = ast.parse(open(os.path.join(REPO, "bempp_cl/core/opencl_kernels.py")).read())
     for node in ast.walk(tree):
         if isinstance(node, ast.FunctionDef) and node.name == "select_cl_kernel":
             for sub in ast.walk(node):
